@@ -3,7 +3,7 @@
    quietly.  `order` stands for the processing order, `run` for the loop of
    Dendrogram.compute, `make_trunk` for _make_trunk, `compute` for the whole. *)
 From Coq Require Import ZArith List Bool Permutation.
-From Dendro Require Import Base Tree Criteria Compute ComputeInv ComputeThm.
+From Dendro Require Import Base Tree Grid Criteria Compute ComputeInv ComputeThm Concrete.
 Import ListNotations.
 Open Scope Z_scope.
 
@@ -81,6 +81,26 @@ Print Assumptions C01_label_unassigned.
 Theorem C01_relabel_keeps_pixels : forall f, fregion (relabel_forest f) = fregion f.
 Proof. exact relabel_forest_fregion. Qed.
 Print Assumptions C01_relabel_keeps_pixels.
+
+(* the same, with every hypothesis discharged, for the concrete computation on an
+   n-dimensional grid (default or periodic adjacency, built-in criteria lists): the
+   assigned pixels of `compute` are exactly the numbers strictly above min_value whose
+   component was not dropped, and none is listed twice *)
+Theorem C01_compute_assigned_iff :
+  forall shape per vals minv cs, Forall (fun n => 0 < n) shape ->
+  forall p,
+    In p (fregion (compute shape (AdjGrid per) vals minv cs)) <->
+    (exists v i, nth_error vals i = Some (Some v) /\ p = Z.of_nat i /\ above minv v = true) /\
+    ~ exists r, In r (run (nbrs shape per) (indep_of cs) (order_of (kept vals minv))) /\
+                In p (region r) /\ dropped (indep_of cs) r.
+Proof. exact grid_assigned_iff. Qed.
+Print Assumptions C01_compute_assigned_iff.
+
+Theorem C01_compute_pixels_distinct :
+  forall shape per vals minv cs, Forall (fun n => 0 < n) shape ->
+    NoDup (fregion (compute shape (AdjGrid per) vals minv cs)).
+Proof. exact grid_pixels_distinct. Qed.
+Print Assumptions C01_compute_pixels_distinct.
 
 (* non-vacuity: a concrete input meeting the hypotheses, with a dropped leaf *)
 Example C01_example :
